@@ -5,7 +5,7 @@ from __future__ import annotations
 import random
 
 from pv import engine
-from pv.common import Run, run_workers, seed_int
+from pv.common import Run, run_workers, seed_int  # noqa: F401  (seed_int is re-exported)
 from pv.gen import grammars as G
 
 
